@@ -5,6 +5,7 @@
 (*            route (whole data, every (subset_num, num_subsets), every group of related        *)
 (*            viewgrams, windows, on-the-fly projector), forward (e_v) and back (e_b)           *)
 (*   Col      (history blocks) the columns of the recorded F                                   *)
+(*   Scaled   one call made with an integer input and with 2^k times that input                    *)
 (*   OtfGroup on-the-fly projector into a group of viewgrams that already holds data             *)
 (*   HistStart SetData SetInput ForwardSubset ForwardGroup StartNewTarget BackSubset BackGroup  *)
 (*            GetOutput BackInto: a history of calls with small integer images / data          *)
@@ -57,6 +58,7 @@ ConfigOk(r) ==
   /\ r.nb = SegOffTo(r, Len(r.segs)) /\ r.nv = r.nx * r.ny * r.nz /\ r.nb > 0 /\ r.nv > 0
   /\ r.scale = FxScale
   /\ \A q \in 1 .. Len(r.Ns) : r.Ns[q] >= 1
+  /\ \A q \in 1 .. Len(r.Ks) : r.Ks[q] \in -100 .. 100 /\ r.Ks[q] # 0
   \* C06: the subsets partition the view/segment pairs (so piecewise = whole follows entry by entry)
   /\ \A q \in 1 .. Len(r.Ns) : IsPartition(ProcessedTable(c, r.Ns[q]), r.Ns[q], AllVS(c))
   /\ \A i \in 1 .. Len(r.wins) : WinRangeOk(r, WinRec(r.wins[i]))
@@ -119,6 +121,12 @@ TopZTo(row, n) == IF n = 0 THEN -1 ELSE Max2(VoxZ(row[n][1]), TopZTo(row, n - 1)
 DropTop(row) == SelectSeq(row, LAMBDA e : VoxZ(e[1]) < TopZTo(row, Len(row)))
 LastPlaneBin(b, axhi) == b[1] = 0 /\ b[4] = 0 /\ (4 * b[3]) % cfg.views # 0 /\ b[2] = axhi
 
+\* homogeneity of the whole-data calls on unit vectors: for every exponent of the block the entries are the exponent-shifted
+\* entries of the unscaled call
+ScaledRoutesOk(q, ref) ==
+  /\ \A j \in 1 .. Len(q) : q[j][1] \in { cfg.Ks[i] : i \in 1 .. Len(cfg.Ks) }
+  /\ \A i \in 1 .. Len(cfg.Ks) : ScaledRow(Lookup1(q, cfg.Ks[i]), ref, cfg.Ks[i])
+
 BinClass(r) ==
   LET b == r.b
       vs == VSofBin(r.b) IN
@@ -126,6 +134,10 @@ BinClass(r) ==
   ELSE IF ~(RowEntriesOk(r.F, TRUE) /\ RowEntriesOk(r.B, FALSE)) THEN "row-malformed"
   \* "<A x, y> = <x, A^T y> for all images x and data y": F[b][v] = forward(e_v)[b], B[v][b] = back(e_b)[v], F = B^T
   ELSE IF ~RowsUlpEq(r.F, r.B) THEN "F-differs-from-Bt"
+  ELSE IF ~ScaledRoutesOk(r.FK, r.F) THEN "forward-not-homogeneous"
+  ELSE IF ~ScaledRoutesOk(r.BK, r.B) THEN "back-not-homogeneous"
+  \* F = B^T also away from magnitude 1
+  ELSE IF ~(\A i \in 1 .. Len(cfg.Ks) : RowsUlpEq(Lookup1(r.FK, cfg.Ks[i]), Lookup1(r.BK, cfg.Ks[i]))) THEN "F-differs-from-Bt-scaled"
   ELSE IF ~SubsetRoutesOk(r.FS, r.F, vs) THEN "forward-subset"
   ELSE IF ~SubsetRoutesOk(r.BS, r.B, vs) THEN "back-subset"
   ELSE IF cfg.groups /\ ~GroupRoutesOk(r.FG, r.F, b) THEN "forward-group"
@@ -210,6 +222,16 @@ OtfClass(r) == IF OtfObs(r, FALSE, FALSE) THEN "ok"
                ELSE IF OtfObs(r, TRUE, TRUE) THEN "C04-otf-accumulates+C04-otf-lastplane"
                ELSE "on-the-fly-group"
 
+\* one forward or back call (subset or window of a group) on an integer input and on 2^k times that input: "projection is
+\* linear" - every bin / voxel of the second result is the first with the exponent shifted by k
+ScaledClass(r) ==
+  IF ~(cfg.nb > 0 /\ l > base + cfg.nb /\ ~r.err /\ r.k \in { cfg.Ks[i] : i \in 1 .. Len(cfg.Ks) }
+       /\ r.N \in 1 .. cfg.views /\ r.s \in 0 .. r.N - 1 /\ WinRangeOk(cfg, HistWin(r))
+       /\ IntsOk(r.in, IF r.fwd THEN cfg.nv ELSE cfg.nb, 3)
+       /\ Len(r.ord1) = (IF r.fwd THEN cfg.nb ELSE cfg.nv)) THEN "scaled-args"
+  ELSE IF ScaledSeq(r.ord2, r.ord1, r.k) THEN "ok"
+  ELSE IF r.fwd THEN "forward-not-homogeneous" ELSE "back-not-homogeneous"
+
 SubsetArgsOk(r) == r.N \in 1 .. cfg.views + 1 /\ r.s \in 0 .. r.N - 1 /\ ~r.err
 HistWinOk(r) == WinRangeOk(cfg, HistWin(r)) /\ ~r.err
 
@@ -266,6 +288,7 @@ Next ==
      /\ LET res == CASE r.e = "Config" -> << IF ConfigOk(r) THEN "ok" ELSE "config", NoHistState >>
                      [] r.e = "Bin" -> << IF cfg.nb > 0 THEN BinClass(r) ELSE "no-config", [hs EXCEPT !.nnz = hs.nnz + Len(r.F)] >>
                      [] r.e = "Col" -> << IF cfg.nb > 0 THEN ColClass(r) ELSE "no-config", [hs EXCEPT !.ncol = hs.ncol + Len(r.col)] >>
+                     [] r.e = "Scaled" -> << IF cfg.nb > 0 THEN ScaledClass(r) ELSE "no-config", hs >>
                      [] r.e = "OtfGroup" -> << IF cfg.nb > 0 THEN OtfClass(r) ELSE "no-config", hs >>
                      [] IsHistEvent(r) -> IF cfg.nb > 0 /\ InHist THEN HistStep(r) ELSE << "no-config", hs >>
                      \* a block the library refused to set up, a history whose projectors could not be built: never expected
